@@ -127,6 +127,10 @@ def project(g, idm: IdMap, universe=()):
     aset = set(atoms)
     if len(aset) != len(atoms):
         bad.append("atoms has duplicates")
+    if any(type(a) is not int for a in atoms):
+        # the harness only ever passes plain ints (or numpy integers EQUAL to them, for subgraph): the graph must keep
+        # its own identifier objects, a leaked numpy scalar breaks ==, str and the RDKit export later on
+        bad.append("atom identifiers are not plain ints: " + ", ".join(sorted({type(a).__name__ for a in atoms})))
     try:
         types = list(g.atom_types)
     except Exception as e:
